@@ -8,6 +8,23 @@ fn main() {
         return;
     }
     let argv: Vec<String> = std::env::args().collect();
+    if argv.get(1).map(|s| s.as_str()) == Some("parse") {
+        let text = String::from_utf8_lossy(&std::fs::read(&argv[2]).unwrap()).to_string();
+        let (ops, warnings, raw) = parse_strace(&text, std::path::Path::new(&argv[3]), FsSim::default());
+        println!("ops={} raw={} warnings={:?}", ops.len(), raw, warnings);
+        let mut sim = FsSim::default();
+        for (i, s) in ops.iter().enumerate() {
+            sim.apply(s);
+            println!("{i}: {}", s.brief());
+            if let Sys::Mark(m) = s {
+                if m.starts_with("hash ") {
+                    let h = sim.file(FILE_NAME).map(b3hex).unwrap_or_default();
+                    println!("   selfcheck sim={h} {}", if m.contains(&h) { "OK" } else { "MISMATCH" });
+                }
+            }
+        }
+        return;
+    }
     if argv.get(1).map(|s| s.as_str()) == Some("probe") {
         let exe = std::env::current_exe().unwrap();
         let scratch = scratch_dir("probe");
